@@ -33,8 +33,8 @@ def _strategy_kl(shapes):
         D, Rp, Rq = draw(st.sampled_from(shapes))
         kappa = draw(st.sampled_from([10.0, 100.0]))
         same = draw(st.sampled_from([False, False, False, True])) and Rp == Rq
-        p = draw(gen.measure_params("pdf", Rp, D, kappa))
-        q = p if same else draw(gen.measure_params("pdf", Rq, D, kappa))
+        p = draw(gen.measure_params("pdf", Rp, D, kappa, extreme=True))
+        q = p if same else draw(gen.measure_params("pdf", Rq, D, kappa, extreme=True))
         return {"D": D, "Rp": Rp, "Rq": Rq, "same": same, "p": p, "q": q, "diag": draw(st.booleans())}
     return s()
 
